@@ -60,6 +60,9 @@ func IsKnownOpen(property, key string) bool {
 		if strings.HasSuffix(f.Key, "*") && strings.HasPrefix(key, strings.TrimSuffix(f.Key, "*")) {
 			return true
 		}
+		if strings.HasPrefix(f.Key, "*") && strings.HasSuffix(key, strings.TrimPrefix(f.Key, "*")) {
+			return true
+		}
 	}
 	return false
 }
